@@ -550,14 +550,14 @@ func iterArrayProgram(cfg *Config, st *hx.Stats, w *hx.W, rng *rand.Rand, p int)
 
 	rounds := 3 + rng.Intn(3)
 	iterNote(st, iterSeen, fmt.Sprintf("arr/%d/%d/%d", T, sizeProf, len(e.shadow)),
-		fmt.Sprintf("array T=%d sizeProfile=%d elements=%d slabs=%d rounds=%d (7 loaded subsets + 20 flavours + overwrite pass each)",
+		fmt.Sprintf("array T=%d sizeProfile=%d elements=%d slabs=%d rounds=%d (8 loaded subsets + 20 flavours + overwrite pass each)",
 			T, sizeProf, len(e.shadow), len(atree.VerifDeltas(e.ps)), rounds))
 	for r := 0; r < rounds && len(st.Violations) <= 20; r++ {
 		if err := e.ps.FastCommit(1 + rng.Intn(3)); err != nil {
 			e.violation("C03", "fault-free commit failed: "+errLine(err))
 			return
 		}
-		for k := 0; k < 7; k++ {
+		for k := 0; k < 8; k++ {
 			e.itLoadedRound(k)
 		}
 		e.itFlavours()
@@ -629,6 +629,10 @@ func (e *itArr) itLoadedRound(k int) {
 	}
 	if !before {
 		loadSubset(e.rng, fresh, ids, mode)
+	}
+	if k == 7 {
+		// the live handle on the live storage (write set and read cache hold every slab)
+		fresh, a2 = e.ps, e.arr
 	}
 	if k == 5 && len(e.shadow) > 0 {
 		// natural partial load: a few positional reads load root-to-leaf paths (and large values)
@@ -1075,14 +1079,14 @@ func iterMapProgram(cfg *Config, st *hx.Stats, w *hx.W, rng *rand.Rand, p int) {
 	var lastFull []kvTV
 	rounds := 3 + rng.Intn(3)
 	iterNote(st, iterSeen, fmt.Sprintf("map/%d/%d/%d/%d", T, mode, e.L, len(e.shadow)),
-		fmt.Sprintf("map T=%d digestMode=%d levels=%d entries=%d slabs=%d rounds=%d (7 loaded subsets + 12 flavours + overwrite pass each)",
+		fmt.Sprintf("map T=%d digestMode=%d levels=%d entries=%d slabs=%d rounds=%d (8 loaded subsets + 12 flavours + overwrite pass each)",
 			T, mode, e.L, len(e.shadow), len(atree.VerifDeltas(e.ps)), rounds))
 	for r := 0; r < rounds && len(st.Violations) <= 20; r++ {
 		if err := e.ps.FastCommit(1 + rng.Intn(3)); err != nil {
 			e.violation("C03", "fault-free commit failed: "+errLine(err))
 			return
 		}
-		for k := 0; k < 7; k++ {
+		for k := 0; k < 8; k++ {
 			e.itLoadedRound(k, mkBuilder)
 		}
 		lastFull = e.itFlavours(mkBuilder)
@@ -1209,6 +1213,10 @@ func (e *itMap) itLoadedRound(k int, mk func() atree.DigesterBuilder) {
 	}
 	if !before {
 		loadSubset(e.rng, fresh, ids, mode)
+	}
+	if k == 7 {
+		// the live handle on the live storage (write set and read cache hold every slab)
+		fresh, m2 = e.ps, e.m
 	}
 	if k == 5 && len(e.keyUniv) > 0 {
 		for j := 0; j < 1+e.rng.Intn(6); j++ {
